@@ -111,16 +111,16 @@ func (b *MvhdBox) EncodeSW(sw bits.SliceWriter) error {
 	}
 	versionAndFlags := (uint32(b.Version) << 24) + b.Flags
 	sw.WriteUint32(versionAndFlags)
-	if b.Version == 0 {
-		sw.WriteUint32(uint32(b.CreationTime))
-		sw.WriteUint32(uint32(b.ModificationTime))
-		sw.WriteUint32(b.Timescale)
-		sw.WriteUint32(uint32(b.Duration))
-	} else {
+	if b.Version == 1 { // Same condition as in the decoder and in Size()
 		sw.WriteUint64(b.CreationTime)
 		sw.WriteUint64(b.ModificationTime)
 		sw.WriteUint32(b.Timescale)
 		sw.WriteUint64(b.Duration)
+	} else {
+		sw.WriteUint32(uint32(b.CreationTime))
+		sw.WriteUint32(uint32(b.ModificationTime))
+		sw.WriteUint32(b.Timescale)
+		sw.WriteUint32(uint32(b.Duration))
 	}
 
 	sw.WriteUint32(uint32(b.Rate))
